@@ -21,6 +21,13 @@
 //!                       port, a generated sequence of frames of very different sizes over ONE
 //!                       persistent connection (as the sender loops use it); the delta callback
 //!                       must get exactly the deltas sent, in order
+//!   actor_mailbox       the production GossipActor driven through its public handle with generated
+//!                       mailbox sequences (delta batches and bursts, joins/leaves = shared ring
+//!                       update + set_router, drains, ticks, control messages) enqueued back to
+//!                       back on a current-thread runtime; per-delta oracle against the memberships
+//!                       in force between enqueueing and routing (see actor.rs)
+
+mod actor;
 
 use proptest::prelude::*;
 use redis_sim::redis::SDS;
@@ -1642,12 +1649,14 @@ fn main() {
         Level::Exploration,
         "memberships of 1..=12 distinct ids from a sparse u64 id space (pool of boundary ids, 1..=16, arbitrary u64), virtual nodes 1..=200, rf 0..=6, \
          ~200 keys per membership from KEY_POOL + 1000 generated keys + generated strings; join orders: all n! for n<=5 (n<=6 in perm_exhaustive), \
-         systematic + generated above; 1..=4 add/remove-one-node steps; rf overrides 0..=13; router: every member as sender, 1..=3 batches of 0..=39 deltas. \
+         systematic + generated above; 1..=4 add/remove-one-node steps; rf overrides 0..=13; router: every member as sender, 1..=3 batches of 0..=39 deltas; \
+         actor: one member of 1..=8 ids as sender, 1..=20 mailbox operations (delta batches/bursts, joins, leaves, set_router, drains, ticks, control messages). \
          non-trivial = n >= 3 and 0 < rf < n (router checks: and at least one delta); distinct by (membership, vnodes, rf, steps | batches)",
         &args,
     );
     s.assume("the oracle for routing is the ring itself: targets(key) = HashRing::get_replicas(key) minus the sender (as the property's observe_at states)");
     s.assume("two virtual nodes never hash to the same 64-bit ring position (SipHash-1-3 with the fixed zero key; <= 2400 positions per ring)");
+    s.assume("actor_mailbox: the actor task runs only while the case awaits (fresh current-thread tokio runtime per case), so everything enqueued between two synchronisation points is in the mailbox before the actor works; a membership change is performed as the in-tree simulator wires it: routers share one Arc<RwLock<HashRing>> with the membership layer, the ring is updated first, then the router for the new membership is handed to set_router");
     s.assume("from_config convention: replica ids are 1..=n and config.peers holds the other nodes' addresses in ascending id order (the only reading of 'numbered sequentially ... starting from 1, excluding self')");
 
     // ---- known finding probe: 3 nodes, sender 1, one key owned by everybody
@@ -1856,6 +1865,12 @@ fn main() {
         },
         check_locked_case,
     );
+
+    s.describe_check(
+        "actor_mailbox",
+        "GossipActor::spawn_with_router / spawn + set_router for one member of a generated membership (1..=8 ids), driven through GossipActorHandle clones with 1..=20 generated mailbox operations: queue_deltas batches (0..=29 deltas) and one-delta-per-write bursts, joins/leaves (shared ring add_node/remove_node, then set_router with a router for the new membership, built by GossipRouter::new, or new/from_config + update_peer/remove_peer), set_router for the unchanged membership, DrainOutbound without waiting, gossip-loop ticks and drain_outbound().await (the only points where the actor runs; current-thread runtime), advance_epoch, queue_heartbeat, queue_deltas_broadcast. Per delta: handed exactly once to get_replicas(key) minus sender — exactly, when the placement of the key is the same under every membership between enqueueing and routing (so a batch enqueued behind a join's set_router must reach the joined node); for updates in flight during a change that moves the key: at least to the replicas responsible under all of these memberships, to nobody who is responsible under none",
+    );
+    s.run_cases("actor_mailbox", s.scale(5_000, 250_000), actor::actor_case, actor::check_actor_case);
 
     s.describe_check(
         "gossip_server_receive",
